@@ -80,6 +80,25 @@ if abs(e_ev - 12500.0 / 8065.544) > 1e-4:
 if abs(e_nm - 1.0e7 / 12500.0) > 1e-6:
     bad.append("12500 1/cm reads as %.9g nm (expected 800)" % e_nm)
 
+# accessor pairs that convert by hand
+for u in ("1/cm", "eV", "THz"):
+    x = {"1/cm": 100.0, "eV": 0.0124, "THz": 3.0}[u]
+    with qr.energy_units("1/cm"):
+        mm = qr.Molecule([0.0, 12000.0])
+        ag_ = qr.Aggregate([qr.Molecule([0.0, 12000.0]), qr.Molecule([0.0, 12100.0])])
+    with qr.energy_units(u):
+        mm.set_transition_width((0, 1), x)
+        back = mm.get_transition_width((0, 1))
+        if abs(back - x) > 1e-9 * x:
+            bad.append("transition width supplied as %g %s reads back as %.9g inside the same units context" % (x, u, back))
+        ag_.set_resonance_coupling(0, 1, x)
+        backc = ag_.get_resonance_coupling(0, 1)
+        if abs(backc - x) > 1e-9 * x:
+            bad.append("resonance coupling supplied as %g %s reads back as %.9g inside the same units context" % (x, u, backc))
+        mm.set_energy(1, 100 * x)
+        if abs(mm.get_energy(1) - 100 * x) > 1e-9 * 100 * x:
+            bad.append("molecular energy supplied as %g %s reads back as %.9g" % (100 * x, u, mm.get_energy(1)))
+
 # building objects leaves the caller's units alone
 for u in ("1/cm", "eV"):
     with qr.energy_units(u):
